@@ -1,7 +1,111 @@
-import ChythonModel.Model.Fingerprint
-namespace ChythonModel.Props.C17
-open ChythonModel.Model ChythonModel.Model.Fingerprint
+import ChythonModel.Proofs.C17WF
+/-!
+# C17 — fingerprints are structure functions with the documented fragment semantics
 
-theorem pyAndMask_le (h : Int) (mask : Nat) : pyAndMask h mask ≤ mask := Nat.and_le_right
+Every theorem is about the definitions of `Model/Fingerprint.lean` that the driver `drv_c17` runs and that the
+correspondence compares, integer for integer, with chython. `H` is the tuple hash: the theorems hold for every
+hash function; the driver uses `Py.pyHashTuple`.
+-/
+namespace ChythonModel.Props.C17
+open ChythonModel.Model ChythonModel.Model.Fingerprint ChythonModel.Spec.Fingerprint ChythonModel.Proofs.C17
+
+/-- propan-2-ol skeleton `C1–C2(–O4)–C3`, numbered and inserted in a scrambled order (used by the `example`s) -/
+def exMol : Mol :=
+  let c : Atom := { z := 6 }
+  let o : Atom := { z := 8 }
+  let s : Bond := { order := 1 }
+  ⟨[(3, c), (1, c), (4, o), (2, c)],
+   [(3, [(2, s)]), (1, [(2, s)]), (4, [(2, s)]), (2, [(4, s), (1, s), (3, s)])]⟩
+
+/-! ## the path enumeration (`_chains`) -/
+
+/-- the queue loop terminates: the model never reports exhausted fuel, whatever the molecule and the radii -/
+theorem chains_total (m : Mol) (lo hi : Int) : ∃ r, chains m lo hi = .ok r := chains_ok m lo hi
+
+/-- **chains_exact** — for radii `1 ≤ lo ≤ hi`, `_chains` returns exactly the direction-canonical forms of the simple
+    paths with `lo … hi` atoms (soundness and completeness). -/
+theorem chains_exact (m : Mol) (hwf : m.WF = true) (lo hi : Int) (h1 : 1 ≤ lo) (h2 : lo ≤ hi) (r : List Path)
+    (h : chains m lo hi = .ok r) (x : Path) :
+    x ∈ r ↔ ∃ p, SimplePath m p ∧ lo ≤ (p.length : Int) ∧ (p.length : Int) ≤ hi ∧ x = canon p :=
+  chains_exact_aux m (closed_of_wf m hwf) lo hi h1 h2 r h x
+
+example : exMol.WF = true ∧ chains exMol 2 3 = .ok [[3, 2], [2, 1], [4, 2], [4, 2, 3], [3, 2, 1], [4, 2, 1]] :=
+  ⟨by decide, by rfl⟩
+
+/-- the returned collection is a set: each undirected path appears once -/
+theorem chains_nodup (m : Mol) (hwf : m.WF = true) (lo hi : Int) (r : List Path) (h : chains m lo hi = .ok r) :
+    r.Nodup := chains_nodup_aux m (wf_parts m hwf).1 lo hi r h
+
+/-- the canonical form identifies exactly a path and its reverse (palindromes are not double counted) -/
+theorem canon_identifies_directions (p q : Path) : canon p = canon q ↔ p = q ∨ p = q.reverse := canon_eq_iff p q
+
+/-- the reverse of a simple path is a simple path (so "undirected simple path" is well defined) -/
+theorem simple_path_reverse (m : Mol) (hwf : m.WF = true) (p : Path) (h : SimplePath m p) : SimplePath m p.reverse :=
+  simplePath_reverse m (adj_symm_of_wf m hwf) p h
+
+/-! ## folding (`linear_bit_set`, `morgan_bit_set`) -/
+
+/-- **active_bits_formula** — the bit set is exactly `{ (h >> j·log2(length)) & (length−1) | h ∈ hashes, j = 0 or j < number_active_bits }` -/
+theorem active_bits_formula (length : Nat) (nab : Int) (hashes : List Int) (b : Nat) :
+    b ∈ activeBits length nab hashes ↔
+      ∃ h ∈ hashes, ∃ j : Nat, (j = 0 ∨ (j : Int) < nab) ∧ b = pyAndMask (h >>> (j * length.log2)) (length - 1) := by
+  unfold activeBits
+  rw [mem_toSet, List.mem_flatMap]
+  constructor
+  · rintro ⟨h, hh, hb⟩; exact ⟨h, hh, (mem_bitsOfHash length nab h b).mp hb⟩
+  · rintro ⟨h, hh, hb⟩; exact ⟨h, hh, (mem_bitsOfHash length nab h b).mpr hb⟩
+
+/-- **bits_lt_length** — every index is below the requested length, for hashes of either sign, every positive length
+    (power of two or not) and every `number_active_bits` -/
+theorem bits_lt_length (length : Nat) (hl : 1 ≤ length) (nab : Int) (hashes : List Int) (b : Nat)
+    (hb : b ∈ activeBits length nab hashes) : b < length := by
+  obtain ⟨h, _, j, _, rfl⟩ := (active_bits_formula length nab hashes b).mp hb
+  have := pyAndMask_le (h >>> (j * length.log2)) (length - 1)
+  omega
+
+example : activeBits 8 3 [-1, 1000] = [0, 5, 7] := by decide
+
+/-- for `length = 2^k` the `j`-th index of hash `h` is the `j`-th `k`-bit window of `h` in two's complement:
+    `⌊h / 2^(j·k)⌋ mod 2^k` (floor division — negative hashes included) -/
+theorem window_semantics (k : Nat) (h : Int) (j : Nat) :
+    (pyAndMask (h >>> (j * (2 ^ k).log2)) (2 ^ k - 1) : Int) = (h / (2 ^ (j * k) : Int)) % (2 ^ k : Int) := by
+  rw [pyAndMask_pow, Nat.log2_two_pow, Int.shiftRight_eq_div_pow]
+  simp
+
+/-- `linear_bit_set` either raises `ValueError` (length ≤ 0) / propagates an error, or returns indices below `length` -/
+theorem linear_bits_lt_length (H : TupleHash) (m : Mol) (lo hi length nab nbp : Int) (bits : List Nat)
+    (h : linearBitSet H m lo hi length nab nbp = .ok bits) : ∀ b ∈ bits, (b : Int) < length := by
+  unfold linearBitSet at h
+  by_cases hl : length ≤ 0
+  · simp [hl, bind, Except.bind, throw, throwThe, MonadExceptOf.throw] at h
+  · simp only [hl, if_false, bind, Except.bind, pure, Except.pure] at h
+    cases hh : linearHashSet H m lo hi nbp with
+    | error e => simp [hh] at h
+    | ok hs =>
+      simp only [hh] at h
+      cases h
+      intro b hb
+      have := bits_lt_length length.toNat (by omega) nab hs b hb
+      omega
+
+theorem morgan_bits_lt_length (H : TupleHash) (m : Mol) (lo hi length nab : Int) (bits : List Nat)
+    (h : morganBitSet H m lo hi length nab = .ok bits) : ∀ b ∈ bits, (b : Int) < length := by
+  unfold morganBitSet at h
+  by_cases hl : length ≤ 0
+  · simp [hl, bind, Except.bind, throw, throwThe, MonadExceptOf.throw] at h
+  · simp only [hl, if_false, bind, Except.bind, pure, Except.pure] at h
+    cases hh : morganHashSet H m lo hi with
+    | error e => simp [hh] at h
+    | ok hs =>
+      simp only [hh] at h
+      cases h
+      intro b hb
+      have := bits_lt_length length.toNat (by omega) nab hs b hb
+      omega
+
+/-- the error branch: a non-positive length is rejected before anything else is computed -/
+theorem bit_set_rejects_nonpositive_length (H : TupleHash) (m : Mol) (lo hi length nab nbp : Int) (hl : length ≤ 0) :
+    linearBitSet H m lo hi length nab nbp = .error .valueError ∧ morganBitSet H m lo hi length nab = .error .valueError := by
+  simp [linearBitSet, morganBitSet, hl, bind, Except.bind, throw, throwThe, MonadExceptOf.throw]
 
 end ChythonModel.Props.C17
